@@ -530,6 +530,10 @@ def run(prog, rep, tier):
         body = one_body(prog, rep, 'R06.7', 'mla', exact=fn)
         if body is None:
             continue
+        # the wrapping may happen in a closure of the function (`recipients.iter().map(|key| ..).collect()`)
+        carriers = [c for c in [body] + list(prog.closures_of(body)) if any(cnorm(b.term) == 'crypto::aesgcm::AesGcm256::new' for b in c.calls())]
+        if len(carriers) == 1:
+            body = carriers[0]
         news = [b for b in body.calls() if cnorm(b.term) == 'crypto::aesgcm::AesGcm256::new']
         ok = len(news) == 1
         if ok:
@@ -541,7 +545,7 @@ def run(prog, rep, tier):
             ad = const_bytes_of(body, t.args[2])
             oka = ad == b''
             ok = okk and okn and oka
-        rep.ob('R06.7', ok, 'R06.7|%s|wrap-cipher' % body.nkey, 'AES-GCM(derive_key(..), ECIES_NONCE, "")' if ok else 'key wrap cipher parameters differ from the published ones', body.loc())
+        rep.ob('R06.7', ok, 'R06.7|mla::%s|wrap-cipher' % fn, 'AES-GCM(derive_key(..), ECIES_NONCE, "")' if ok else 'key wrap cipher parameters differ from the published ones', body.loc())
     # chunk ciphers: associated data is empty
     for body in mla.bodies:
         if norm(body.defpath).startswith('layers::encrypt::'):
